@@ -29,11 +29,17 @@ var children = map[string]func(args []string){}
 
 // runChild runs a child probe and returns its stdout lines, its stderr tail and whether it finished.
 func runChild(name string, args ...string) (lines []string, stderr string, finished bool) {
+	return runChildEnv(name, nil, args...)
+}
+
+// runChildEnv: the same with extra environment variables (what a process reads once at start, e.g. the host trust store)
+func runChildEnv(name string, env []string, args ...string) (lines []string, stderr string, finished bool) {
 	exe, err := os.Executable()
 	if err != nil {
 		return nil, err.Error(), false
 	}
 	cmd := exec.Command(exe, append([]string{"CHILD:" + name}, args...)...)
+	cmd.Env = append(os.Environ(), env...)
 	var out, errb bytes.Buffer
 	cmd.Stdout, cmd.Stderr = &out, &errb
 	done := make(chan error, 1)
